@@ -601,7 +601,7 @@ fn main() {
     s.run_enum(&Corpus, corpus_cases().into_iter(), false);
     s.run(&Datasets);
     if tier == Tier::Thorough {
-        let job = FuzzJob { runs: 1_000_000, seed: if seed == 0 { 1 } else { seed & 0x7fff_ffff } };
+        let job = FuzzJob { runs: 400_000, seed: if seed == 0 { 1 } else { seed & 0x7fff_ffff } };
         s.run_enum(&LibFuzzer, std::iter::once(job), false);
     }
     if discover() {
